@@ -36,6 +36,42 @@ fn case_text(orig: &[u8], bits: &[u32]) -> String {
     format!("# cfdp-verif wire v1\ncase mode=c15 orig={} flips={}\n", hex(orig), bits.iter().map(|b| b.to_string()).collect::<Vec<_>>().join(","))
 }
 
+/// a reader that returns short reads of seeded lengths (chained buffers, a stream that trickles a
+/// few octets per call)
+struct Trickle<'a> {
+    data: &'a [u8],
+    pos: usize,
+    rng: Rng,
+    max: usize,
+}
+impl std::io::Read for Trickle<'_> {
+    fn read(&mut self, buf: &mut [u8]) -> std::io::Result<usize> {
+        if buf.is_empty() || self.pos >= self.data.len() {
+            return Ok(0);
+        }
+        let n = (1 + self.rng.usize_below(self.max)).min(buf.len()).min(self.data.len() - self.pos);
+        buf[..n].copy_from_slice(&self.data[self.pos..self.pos + n]);
+        self.pos += n;
+        Ok(n)
+    }
+}
+
+/// the unaltered datagram read in pieces (six fixed piece-size regimes, lengths derived from the
+/// datagram itself so that a replay repeats them) must decode to the PDU the contiguous slice gives
+fn short_read_check(bytes: &[u8], p: &PDU, label: &str) -> Vec<CViol> {
+    let mut out = vec![];
+    for k in 0..6u64 {
+        let max = [1usize, 2, 3, 7, 16, 64][k as usize];
+        let mut r = Trickle { data: bytes, pos: 0, rng: Rng::new(mix(crate::prng::fnv(bytes) ^ 0xC15D, k)), max };
+        match PDU::decode(&mut r) {
+            Ok(q) if q == *p => {}
+            Ok(_) => out.push(CViol { clause: "decoded_differently_under_short_reads".into(), signature: "C15/decoded_differently_under_short_reads".into(), detail: format!("{}: read in pieces of at most {} octets the unaltered datagram decodes to a different PDU", label, max), replay: case_text(bytes, &[]) }),
+            Err(e) => out.push(CViol { clause: "unaltered_pdu_rejected".into(), signature: "C15/unaltered_pdu_rejected/short_reads".into(), detail: format!("{}: read in pieces of at most {} octets the unaltered datagram is rejected: {}", label, max, e), replay: case_text(bytes, &[]) }),
+        }
+    }
+    out
+}
+
 fn kind_name(p: &PDU) -> &'static str {
     crate::world::kind_of(p).name()
 }
@@ -90,6 +126,13 @@ fn run(tier: Tier, seed: u64, workers: usize) -> COut {
             }
         }
         return out;
+    }
+    // "an unaltered PDU is always accepted", however the octets reach the decoder
+    for (it, p) in corpus.iter().zip(parsed.iter()) {
+        out.evaluations += 6;
+        for v in short_read_check(&it.bytes, p, &it.label) {
+            out.viol(v);
+        }
     }
     for (it, p) in corpus.iter().zip(parsed.iter()) {
         if p.clone().encode() != it.bytes {
@@ -314,6 +357,9 @@ fn replay(text: &str) -> Result<Vec<CViol>, String> {
             return Ok(vec![CViol { clause: "unaltered_pdu_rejected".into(), signature: "C15/unaltered_pdu_rejected".into(), detail: e.to_string(), replay: text.to_string() }]);
         }
     };
+    if bits.is_empty() {
+        return Ok(short_read_check(&orig, &p, "replayed datagram"));
+    }
     let fam = match bits.len() {
         1 => "single",
         2 => "pair",
